@@ -12,7 +12,7 @@ KF-C07-all-syscalls-listed) and the full statement is kept below as `C07_roundtr
 import LA.Proofs.Num
 import LA.Proofs.Tables
 import LA.Model.Flags
-import LA.Props.C20
+import LA.Proofs.TablesRT
 import LA.Props.C06
 import LA.Proofs.RuleWire
 import LA.Proofs.RulePrint
@@ -155,7 +155,7 @@ theorem C07_msgtype_name (t : Nat) (h : t < 65536) : getAuditMsgType (MsgType.ty
       simp [this]
     simp [hl]
   simp only [hsyn]
-  exact LA.C20.C20_type_roundtrip t h
+  exact LA.TablesRT.type_roundtrip t h
 
 /-- The watch form (-w PATH -p PERM [-k KEY]) is used only for rules that are exactly what -w
 builds: always,exit, all syscalls, path=/dir= then perm= then optionally key=, all with '=',
@@ -195,7 +195,7 @@ theorem C07_exit_print_parse (v : Nat) (h : v < 4294967296) :
     simp only
     split at hn
     · rename_i hle
-      have hnum := LA.C20.C20_errno_num_name_num _ _ hn
+      have hnum := LA.TablesRT.errno_num_name_num _ _ hn
       obtain ⟨c, tl, hname, hc⟩ := errno_names_upper ((-code).toNat, name) (lookupN_mem hn)
       simp only at hname
       refine ⟨code, ?_, hback⟩
